@@ -7,14 +7,16 @@
      the predictors act as they must, 0 <= R2 <= 1.  Quick: every (X, y) in {-2..2}^(3x1) x {-2..2}^3 plus a random sample of
      shapes n 3..5, p 1..2; thorough adds every 4x1 case and a larger sample.
 (R)  replay: every generated case is run through MLR() / MLRPredictY(); b, recalculated_y, recalc_residuals, r2y_model, sdec^2 and
-     the predictions for two unseen objects are compared with TLC's rationals (1e-9).
+     the predictions for two unseen objects are compared with TLC's rationals (1e-9) - in the original units and with X * 2^e,
+     y * 2^f + g for (e,f,g) in (-30,0,0), (-20,12,0), (20,-25,0), (0,0,64) (exact in double; results mapped back exactly):
+     the fit must not depend on the units.
 (V)  validate: c07_drv fits real problems (X 4..50 x 1..10, cond([1 X]) <= 1e4, 1..4 responses, noise 0..dominant, offsets and
      scales), logs normal-equation residuals, coefficients against LAPACK dgels, reported R2/SDEC against their definitions,
-     prediction identity on unseen rows, statistics on unseen rows, paired equivariance runs, re-use of the output matrix and
+     prediction identity on unseen rows, statistics on unseen rows, paired equivariance runs (y -> c*y+d with |c| from 1e-8 to
+     1e8, X -> X*diag(s) with s from 1e-8 to 1e8, invertible re-mixing), re-use of the output matrix and
      tiny integer cases; TLC validates every event against TraceMlr.tla (bounds are a function of the logged condition number).
 """
 import os, shutil
-from fractions import Fraction
 from vf import build, tlc, trace, ledgerkit
 from vf import run as hrun
 from vf.core import InfraError
@@ -27,7 +29,7 @@ LEVEL_TEXT = ("Exhaustive small-scope core (all 15,000 full-rank problems with X
               "random sample of shapes up to 5x2, each solved exactly by TLC and replayed into the library with a 1e-9 comparison; sampled exploration of the "
               "property's real-valued quantifier (cond <= 1e4) with every recorded identity validated by TLC against the ledger.")
 LEVEL_NOTE = ("Trusts TLC and the two exact solvers agreeing, LAPACK dgels/dgesdd, the harness's residual evaluation and quantisation (binding self-test), "
-              "python's fractions for the rational-vs-double comparison. The real-valued part is sampled; the exhaustive part covers tiny integer problems only.")
+              "the rational-vs-double comparison (rationals rounded to the nearest double, tolerance 1e-9). The real-valued part is sampled; the exhaustive part covers tiny integer problems only.")
 
 TOL = 10000
 CAP = 1000000000
@@ -78,17 +80,7 @@ def _sig(ev):
 
 
 # ------------------------------------------------------------------------------------------------ (M)/(GEN) + replay
-def _frac(p):
-    return Fraction(p[0], p[1])
-
-
-def _close(x, q):
-    if x is None:
-        return False
-    return abs(Fraction(x) - q) <= Fraction(REL) * max(1, abs(q))
-
-
-def exact_part(ctx, exe, rd, cfgs):
+def exact_part(ctx, exe, rd, cfgs, units="all"):
     cases = []
     for cfg, workers, label in cfgs:
         if isinstance(cfg, dict):        # constants computed per run
@@ -107,41 +99,62 @@ def exact_part(ctx, exe, rd, cfgs):
             f.write("%d %d %s %s %d %s\n" % (c["n"], c["p"], " ".join(str(v) for row in c["X"] for v in row), " ".join(str(v) for v in c["y"]),
                                              len(c["xnew"]), " ".join(str(v) for row in c["xnew"] for v in row)))
     out = os.path.join(rd, "replay.ndjson")
-    h = hrun.run(exe, ["--replay", path, out], timeout=1200)
+    h = hrun.run(exe, ["--replay", path, out, units], timeout=2400)
     if h.san:
         ctx.violation("MLR:%s" % h.san, "sanitizer report while replaying TLC's tiny cases:\n%s" % h.err[:1500], dict(kind="tiny-all"))
     elif h.rc != 0:
         raise InfraError("c07 replay failed rc=%d: %s" % (h.rc, h.err[-500:]))
     res = hrun.read_ndjson(out)
-    if len(res) != len(cases) and not h.san:
-        raise InfraError("c07 replay returned %d results for %d cases" % (len(res), len(cases)))
-    worst = 0.0
-    for c, g in zip(cases, res):
-        n, p = c["n"], c["p"]
-        const_y = c["tss"][0] == 0
-        ctx.case(("T", str(c["X"]), str(c["y"])), not const_y)
+    seen = set(g["id"] for g in res)
+    if len(seen) != len(cases) and not h.san:
+        raise InfraError("c07 replay returned results for %d of %d cases" % (len(seen), len(cases)))
+    worst, nscaled = 0.0, 0
+    exact = {}
+
+    def want_of(c):
+        # TLC's rationals as the nearest doubles (the comparison tolerance is 1e-9, seven orders above that rounding)
+        return dict(b=[q[0] / q[1] for q in c["b"]], fitted=[q[0] / q[1] for q in c["fitted"]], resid=[q[0] / q[1] for q in c["resid"]],
+                    pred=[q[0] / q[1] for q in c["pred"]], sdec2=c["sdec2"][0] / c["sdec2"][1], r2=None if c["tss"][0] == 0 else c["r2"][0] / c["r2"][1])
+
+    def near(x, w):
+        return x is not None and abs(x - w) <= REL * max(1.0, abs(w))
+    for g in res:
+        c = cases[g["id"]]
+        if g["id"] not in exact:
+            exact[g["id"]] = want_of(c)
+            ctx.case(("T", str(c["X"]), str(c["y"])), c["tss"][0] != 0)
+        w = exact[g["id"]]
+        units_ = (g.get("e", 0), g.get("f", 0), g.get("g", 0))
+        scaled = units_ != (0, 0, 0)
+        nscaled += scaled
         bad = None
-        want_b = [_frac(q) for q in c["b"]]
         try:
-            got_b = [row[0] for row in g["b"]]
-            checks = [("coef", got_b, want_b),
-                      ("predict", [row[0] for row in g["fitted"]], [_frac(q) for q in c["fitted"]]),
-                      ("residuals", [row[0] for row in g["resid"]], [_frac(q) for q in c["resid"]]),
-                      ("predict", [row[0] for row in g["pred"]], [_frac(q) for q in c["pred"]]),
-                      ("sdec", [None if g["sdec"][0] is None else Fraction(g["sdec"][0]) ** 2], [_frac(c["sdec2"])])]
-            if not const_y:
-                checks.append(("r2", [g["r2"][0]], [_frac(c["r2"])]))
+            checks = [("coef", [row[0] for row in g["b"]], w["b"]),
+                      ("predict", [row[0] for row in g["fitted"]], w["fitted"]),
+                      ("residuals", [row[0] for row in g["resid"]], w["resid"]),
+                      ("predict", [row[0] for row in g["pred"]], w["pred"]),
+                      ("sdec", [None if g["sdec"][0] is None else g["sdec"][0] ** 2], [w["sdec2"]])]
+            if w["r2"] is not None:
+                checks.append(("r2", [g["r2"][0]], [w["r2"]]))
         except (KeyError, IndexError, TypeError):
             checks, bad = [], ("shape", None, None)
         for name, got, want in checks:
-            if len(got) != len(want) or not all(_close(x, q) for x, q in zip(got, want)):
-                bad = (name, got, [str(q) for q in want])
+            if len(got) != len(want) or not all(near(x, q) for x, q in zip(got, want)):
+                bad = (name, got, want)
                 break
             for x, q in zip(got, want):
-                worst = max(worst, float(abs(Fraction(x) - q) / max(1, abs(q))))
+                worst = max(worst, abs(x - q) / max(1.0, abs(q)))
         if bad:
-            ctx.violation("MLR:%s:tiny" % bad[0], "X=%s y=%s: %s computed by the library = %s, exact = %s" % (c["X"], c["y"], bad[0], bad[1], bad[2]),
-                          dict(kind="tiny", X=c["X"], y=c["y"], xnew=c["xnew"]))
+            if scaled:
+                ctx.violation("MLR:scale:%s:tiny" % bad[0], "X=%s * 2^%d, y=%s * 2^%d + %g: %s computed by the library (mapped back to the original units) = %s, exact = %s; "
+                              "the fit must not depend on the units of X and y" % (c["X"], units_[0], c["y"], units_[1], units_[2], bad[0], bad[1], bad[2]),
+                              dict(kind="tiny", X=c["X"], y=c["y"], xnew=c["xnew"], e=units_[0], f=units_[1], g=units_[2]))
+            else:
+                ctx.violation("MLR:%s:tiny" % bad[0], "X=%s y=%s: %s computed by the library = %s, exact = %s" % (c["X"], c["y"], bad[0], bad[1], bad[2]),
+                              dict(kind="tiny", X=c["X"], y=c["y"], xnew=c["xnew"]))
+    if nscaled == 0:
+        raise InfraError("c07 replay produced no run in other units")
+    ctx.cov["exact_case_runs_in_other_units"] = nscaled
     for c in cases[:2] + cases[len(cases) // 2:len(cases) // 2 + 1]:
         ctx.sample(dict(kind="exact case from Mlr.tla", X=c["X"], y=c["y"], b=c["b"], r2=c["r2"], sdec2=c["sdec2"]), 3)
     ctx.cov.setdefault("observed_max", {})["replay_vs_exact_rel"] = worst
@@ -248,7 +261,7 @@ def selftests(ctx, events):
 
 def run(ctx):
     ctx.assumptions += [
-        "exact part: TLC computes B = Solve([1 X]'[1 X], [1 X]'y), fitted values, RSS, TSS, R2, SDEC^2 over the rationals for every enumerated tiny integer problem (two solvers must agree); the comparison of the library's doubles with those rationals (1e-9 relative) is done with python fractions",
+        "exact part: TLC computes B = Solve([1 X]'[1 X], [1 X]'y), fitted values, RSS, TSS, R2, SDEC^2 over the rationals for every enumerated tiny integer problem (two solvers must agree); the comparison of the library's doubles with those rationals (rounded to the nearest double; 1e-9 relative) is done by the check driver, in the original units and in four other unit systems (powers of two, exact)",
         "validate part: residuals are evaluated by the harness in double precision (LAPACK dgels as independent optimum, dgesdd for cond([1 X])) and logged as integers; TLC decides every comparison with a bound (1e-8 + 2e-13*kappa^2)*|y|/|y-mean| (capped 1e-3) calibrated on the unchanged tree (worst observed/bound 7e-3 over 3000 models)",
         "inputs inside the quantifier: n 4..50, p 1..min(10,n-2), cond([1 X]) <= 1e4, responses non-constant; sampled (seeded)",
         "ASan/UBSan build: any sanitizer report is a violation",
@@ -262,7 +275,7 @@ def run(ctx):
             events = validate_part(ctx, exe, rd, 600, 8)
         else:
             n = exact_part(ctx, exe, rd, [("MC_Mlr_quick.cfg", 16, "gen_all_3x1"), ] + [
-                (dict(Mode="all", NN=4, PP=1, Samples=1, Chains=1, Slice=k), 16, "gen_all_4x1_slice%d" % k) for k in range(1, 6)] + [("MC_Mlr_sample_thorough.cfg", 16, "gen_sample")])
+                (dict(Mode="all", NN=4, PP=1, Samples=1, Chains=1, Slice=k), 16, "gen_all_4x1_slice%d" % k) for k in range(1, 6)] + [("MC_Mlr_sample_thorough.cfg", 16, "gen_sample")], units="rot")
             events = validate_part(ctx, exe, rd, 20000, 16)
         ctx.cov["rule"] = ("exact part: every full-rank (X, y) with X in {-2..2}^(3x1), y in {-2..2}^3 (thorough: also 4x1) plus random shapes n 3..5, p 1..2 over the same alphabet, "
                            "each a distinct case keyed by (X, y), non-trivial iff y is not constant; validate part: seeded random problems n 4..50, p 1..min(10,n-2), 1..4 responses, "
@@ -296,8 +309,8 @@ def replay(ctx, body):
             with open(path, "w") as f:
                 f.write("%d %d %s %s %d %s\n" % (len(X), len(X[0]), " ".join(str(v) for r in X for v in r), " ".join(str(v) for v in y), len(xnew), " ".join(str(v) for r in xnew for v in r)))
             out = os.path.join(rd, "one.ndjson")
-            h = hrun.run(exe, ["--replay", path, out], timeout=120)
-            res = hrun.read_ndjson(out)
+            h = hrun.run(exe, ["--replay", path, out, "all"], timeout=120)
+            res = [g for g in hrun.read_ndjson(out) if (g.get("e", 0), g.get("f", 0), g.get("g", 0)) == (case.get("e", 0), case.get("f", 0), case.get("g", 0))]
             if h.san or not res:
                 ctx.violation("MLR:%s" % (h.san or "crash"), h.err[:1200], case)
             else:
